@@ -73,6 +73,9 @@ type Exec struct {
 	Lazy        bool
 	LazyForks   int
 	LazyDropped int
+	BoxDecided  int
+	PoolHits    int
+	modelPool   [][]uint64
 	onRootReturn func(v Value)
 }
 
@@ -126,9 +129,48 @@ func (x *Exec) feasible(s *State, cond *smt.Term) (bool, []uint64) {
 			return false, nil
 		}
 	}
+	// exact solver-free decision: cond depends on one input byte that the path
+	// condition constrains only through unary conjuncts
+	if v, set, ok := x.Ctx.Table(cond); ok {
+		entangled := false
+		box := set
+		var flat []*smt.Term
+		for _, p := range s.PC {
+			flat = flattenAnd(p, flat)
+		}
+		for _, p := range flat {
+			if pv, pset, pok := x.Ctx.Table(p); pok {
+				if pv == v {
+					box = box.And(pset)
+				}
+				continue
+			}
+			if smt.HasVar(x.Ctx.VarSet(p), v) {
+				entangled = true
+				break
+			}
+		}
+		if !entangled {
+			x.BoxDecided++
+			if box.Empty() {
+				return false, nil
+			}
+			if s.Model != nil {
+				m := append([]uint64(nil), s.Model...)
+				for len(m) <= v {
+					m = append(m, 0)
+				}
+				m[v] = uint64(box.First())
+				return true, m
+			}
+		}
+	}
 	k := feasKey{pcKey(s.PC), cond}
 	if r, ok := x.feasCache[k]; ok {
 		return r.res != smt.Unsat, r.model
+	}
+	if m := x.poolModel(s.PC, cond); m != nil {
+		return true, m
 	}
 	if x.QuerySites != nil {
 		var pcs [6]uintptr
@@ -147,11 +189,105 @@ func (x *Exec) feasible(s *State, cond *smt.Term) (bool, []uint64) {
 	as := append(append([]*smt.Term(nil), s.PC...), cond)
 	res, model := x.Solver.Check(as, true)
 	x.feasCache[k] = feasRes{res, model}
+	if res == smt.Sat {
+		x.addModel(model)
+	}
 	if res == smt.Unknown {
 		x.Undecided++
 		return true, nil
 	}
 	return res == smt.Sat, model
+}
+
+// pcSat decides the satisfiability of the whole path condition of s: by unary boxes
+// when that is conclusive, otherwise by the solver.
+func (x *Exec) pcSat(s *State) (smt.Result, []uint64) {
+	var flat []*smt.Term
+	for _, p := range s.PC {
+		flat = flattenAnd(p, flat)
+	}
+	boxes := map[int]smt.Set256{}
+	nonUnary := false
+	for _, p := range flat {
+		if p.IsConst() {
+			if p.Val == 0 {
+				return smt.Unsat, nil
+			}
+			continue
+		}
+		if v, set, ok := x.Ctx.Table(p); ok {
+			cur, has := boxes[v]
+			if !has {
+				cur = smt.FullSet
+			}
+			cur = cur.And(set)
+			if cur.Empty() {
+				x.BoxDecided++
+				return smt.Unsat, nil
+			}
+			boxes[v] = cur
+			continue
+		}
+		nonUnary = true
+	}
+	if !nonUnary {
+		x.BoxDecided++
+		m := make([]uint64, len(x.Ctx.Vars))
+		for v, b := range boxes {
+			m[v] = uint64(b.First())
+		}
+		return smt.Sat, m
+	}
+	if m := x.poolModel(flat, nil); m != nil {
+		return smt.Sat, m
+	}
+	res, m := x.Solver.Check(s.PC, true)
+	if res == smt.Sat {
+		x.addModel(m)
+	}
+	return res, m
+}
+
+// poolModel looks for a previously found model that satisfies all of conj (and extra).
+func (x *Exec) poolModel(conj []*smt.Term, extra *smt.Term) []uint64 {
+	for i := len(x.modelPool) - 1; i >= 0; i-- {
+		m := x.modelPool[i]
+		memo := map[*smt.Term]uint64{}
+		ok := true
+		if extra != nil && smt.Eval(extra, m, memo) != 1 {
+			continue
+		}
+		for _, p := range conj {
+			if smt.Eval(p, m, memo) != 1 {
+				ok = false
+				break
+			}
+		}
+		if ok {
+			x.PoolHits++
+			return m
+		}
+	}
+	return nil
+}
+
+func (x *Exec) addModel(m []uint64) {
+	if m == nil {
+		return
+	}
+	if len(x.modelPool) >= 48 {
+		copy(x.modelPool, x.modelPool[1:])
+		x.modelPool = x.modelPool[:len(x.modelPool)-1]
+	}
+	x.modelPool = append(x.modelPool, m)
+}
+
+func flattenAnd(t *smt.Term, out []*smt.Term) []*smt.Term {
+	if t.Op == smt.OpAnd {
+		out = flattenAnd(t.A[0], out)
+		return flattenAnd(t.A[1], out)
+	}
+	return append(out, t)
 }
 
 // valid reports whether pc ⇒ cond; when not, it returns a counter-model.
@@ -259,7 +395,7 @@ func (x *Exec) run(s0 *State, stop stopPoint) (arrived []*State) {
 				kept := merged[:0]
 				for _, m := range merged {
 					if m.Model == nil {
-						res, mod := x.Solver.Check(m.PC, true)
+						res, mod := x.pcSat(m)
 						if res == smt.Unsat {
 							x.LazyDropped++
 							continue
@@ -429,7 +565,7 @@ func (x *Exec) enterBlock(s *State, b *ssa.BasicBlock) bool {
 
 func (x *Exec) unwindFailure(s *State, b *ssa.BasicBlock) {
 	if s.Model == nil && !x.Concrete {
-		res, m := x.Solver.Check(s.PC, true)
+		res, m := x.pcSat(s)
 		if res == smt.Unsat {
 			return // an infeasible path explored lazily
 		}
@@ -532,7 +668,7 @@ func (x *Exec) raisePanic(s *State, msg string) bool {
 	model := s.Model
 	unknown := false
 	if model == nil && !x.Concrete {
-		res, m := x.Solver.Check(s.PC, true)
+		res, m := x.pcSat(s)
 		if res == smt.Unsat {
 			return false
 		}
@@ -731,7 +867,7 @@ func (x *Exec) step(s *State) (stepResult, []*State, stopPoint) {
 		if s.UnknownSince == 0 {
 			s.UnknownSince = s.Steps
 		} else if s.Steps-s.UnknownSince > 4000 {
-			res, m := x.Solver.Check(s.PC, true)
+			res, m := x.pcSat(s)
 			if res == smt.Unsat {
 				x.LazyDropped++
 				return stepDead, nil, stopPoint{}
